@@ -179,6 +179,9 @@ UNITS = [
     Unit("C03", "jsonargparse._actions:ActionConfigFile.apply_config", acf_setup, acf_post, acf_raises, label="fault-mode", expect_cover=("return", "raise:TypeError")),
     Unit("C03", "jsonargparse._actions:_ActionPrintConfig.print_config_if_requested", pc_setup, pc_post, pc_raises, expect_cover=("return", "raise:SystemExit")),
 ]
+from contracts.check_type import check_type_unit  # noqa: E402
+UNITS.append(check_type_unit("C03"))
+
 VERIFIED_CALLEES = ("self.error",)
 LEVEL = "other"
 TECHNIQUE = "contract-based deductive verification of the explicit error channel (VCs from the real AST, exception flow explored path by path with fault-raising callee contracts) + bounded run-time contract checking over an argv/config grammar"
